@@ -17,7 +17,7 @@ its result.  Probe i sits before the call of fn, probe j after it.
 """
 
 IMPORTS = [
-    "from mc.c13_env import P, PF, DEC, CB, LO, Boom",
+    "from mc.c13_env import P, PF, DEC, CB, LO, SCF, Boom",
     "import mc.c13_env as _c13_env; _c13_env.register()",
 ]
 CACHE_IMPL = "c13dict"
@@ -80,6 +80,28 @@ def CB(caller):
         return "[nocaller]"
     body()
     return ""
+
+
+def _scf(context, x, i):
+    context.write("<p>")
+    _fire(i, context.get("T"))
+    context["caller"].body()
+    context.write("</p>")
+    return ""
+
+
+_scf_wrapped = [None, None]
+
+
+def SCF(context, x, i):
+    """a plain Python function made callable with content by mako.runtime.supports_caller (doc: namespaces, "python modules");
+    <%call expr="SCF(context, A, i)">: writes <p>, probe i, caller.body(), </p>"""
+    import mako.runtime as rt
+
+    if _scf_wrapped[0] is not rt:
+        _scf_wrapped[0] = rt
+        _scf_wrapped[1] = rt.supports_caller(_scf)
+    return _scf_wrapped[1](context, x, i)
 
 
 def LO(loop):
